@@ -3584,7 +3584,8 @@ class FlowIR(object):
 
             stageRe = re.compile(r"stage([0-9]+)")
             # Check that the putative `stage` part of the reference is an actual stage reference
-            match = stageRe.match(stage)
+            # (the whole text before the first `.` must be "stage$NUM": "stage1x.foo" is a name that contains a `.`)
+            match = stageRe.fullmatch(stage)
             if match is not None:
                 stageIndex = int(match.group(1))
                 hasIndex = True
